@@ -66,12 +66,14 @@ where
             sxy = sxy + *v * count;
             syy = syy + count.powi(2);
         }
-        let window_len = T::from(self.window_len).expect("Can convert");
+        // number of values actually in the window (smaller than `window_len` while it fills up)
+        let window_len = T::from(self.q_vals.len()).expect("Can convert");
         if window_len * sxx - sx.powi(2) > T::zero() && window_len * syy - sy.powi(2) > T::zero() {
             let out = (window_len * sxy - sx * sy)
                 / ((window_len * sxx - sx.powi(2)) * (window_len * syy - sy.powi(2))).sqrt();
             debug_assert!(out.is_finite(), "value must be finite");
-            return Some(out);
+            // a correlation; rounding can push a perfectly linear window to 1 + 2e-16
+            return Some(out.max(-T::one()).min(T::one()));
         }
         Some(T::zero())
     }
